@@ -168,7 +168,7 @@ def runLine (pkgName pkgVersion : List Byte) (st : St) (line : String) : St × O
         let map := (List.range st.ch).map fun k => u blob (4 * k) 4
         match setChannelMap st.ch map with
         | none => (st, some "ret=0")
-        | some (r, m, tag) => ({ st with chmap := some (m, tag) }, some ("ret=" ++ toString r))
+        | some (r, m, tag) => ({ st with chmap := Sf.MetaXS.applyChmap st.chmap m tag }, some ("ret=" ++ toString r))
     else (st, none)
   | "setcues" :: "h0" :: _ :: rest =>
     let cs := match rest with | [] => [] | t :: _ => if t = "" then [] else (t.splitOn ",").map cueOfTok
